@@ -497,7 +497,7 @@ func init() {
 				if i%2 == 1 {
 					return refCase(r, rgenOpts{rloops: true, cloops: true, conds: true, signals: i%4 == 3}, st, "reference")
 				}
-				o := genOpts{loops: true, conds: i%2 == 0, userFns: true}
+				o := genOpts{loops: true, conds: i%2 == 0, userFns: true, signals: i%8 == 2}
 				j1 := genJob(r, o, 3+r.intn(3), 3, st)
 				if i%4 == 0 {
 					j2 := genJob(r, o, 2+r.intn(3), 3, st)
